@@ -27,6 +27,7 @@ import (
 	"github.com/insomniacslk/dhcp/dhcpv4"
 	"github.com/insomniacslk/dhcp/dhcpv4/server4"
 	"github.com/insomniacslk/dhcp/dhcpv6"
+	"github.com/insomniacslk/dhcp/iana"
 	"github.com/insomniacslk/dhcp/dhcpv6/server6"
 )
 
@@ -233,6 +234,18 @@ func (s *sim) validBytes(id int) []byte {
 			dhcpv4.WithHwAddr(net.HardwareAddr{2, 0, 0, 0, byte(id >> 8), byte(id)}))
 		if s.rng.Intn(2) == 0 {
 			p.OpCode = dhcpv4.OpcodeBootReply
+		}
+		// header fields over their whole range: the message handed to the handler is the datagram's decoding, field by field
+		pickU16 := func() uint16 {
+			return []uint16{0, 1, 255, 256, 512, 0xff00, 0x8000, 0xffff, uint16(s.rng.Intn(65536))}[s.rng.Intn(9)]
+		}
+		p.NumSeconds, p.Flags, p.HopCount = pickU16(), pickU16(), uint8(pickU16())
+		if s.rng.Intn(2) == 0 {
+			p.ClientIPAddr = net.IPv4(10, 2, byte(id>>8), byte(id)).To4()
+			p.YourIPAddr = net.IPv4(10, 3, byte(s.rng.Intn(256)), byte(id)).To4()
+			p.ServerIPAddr = net.IPv4(10, 4, 0, byte(s.rng.Intn(256))).To4()
+			p.ServerHostName, p.BootFileName = "srv"+string(rune('a'+id%26)), "boot/"+string(rune('a'+id%26))+".efi"
+			p.HWType = iana.HWType([]int{1, 6, 32, 0, 255}[s.rng.Intn(5)])
 		}
 		if s.rng.Intn(2) == 0 {
 			p.UpdateOption(dhcpv4.OptGeneric(dhcpv4.GenericOptionCode(200), make([]byte, 300+s.rng.Intn(300))))
